@@ -279,11 +279,18 @@ class Image:
             elif s.name == "__rela_iplt_end":
                 hi = s.value
         out = []
-        if lo is not None and hi is not None and hi > lo:
-            raw = self.elf.read_vaddr(lo, hi - lo)
+        if lo is not None and hi is not None:
+            raw = self.elf.read_vaddr(lo, hi - lo) if hi > lo else b""
             for i in range(len(raw) // 24):
                 o, info, a = struct.unpack_from("<QQq", raw, i * 24)
                 out.append((o, info & 0xffffffff, info >> 32, a))
+            return out
+        # The symbols exist only when something refers to them (lld) - nothing does in a program
+        # without startup code; the same table is then found as the allocated SHT_RELA sections.
+        for s in self.elf.sections:
+            if s.sh_type == elfread.SHT_RELA and s.sh_flags & elfread.SHF_ALLOC:
+                for o, info, a in struct.iter_unpack("<QQq", s.data):
+                    out.append((o, info & 0xffffffff, info >> 32, a))
         return out
 
     def _relocate(self):
